@@ -15,6 +15,7 @@ import random
 import shutil
 import subprocess
 import vlib
+import c01
 import planrun
 from vlib import Check, run_tlc, run_cmd, build_harness, validate_trace, FrameworkError, WORK, log, Graph
 
@@ -103,7 +104,8 @@ def planner_costs(ck, tier):
                     budgets = [rng.choice([150, 300, 600]), rng.choice([300, 600]), rng.choice([600, 1200]), 300]
                 job = {"id": jid, "planner": p["name"], "objective": ob, "W": W, "H": H, "obst": obst, "start": s,
                        "goal": g, "seed": rng.randrange(1, 1 << 30), "thr": rng.choice([0.0, 0.0, 0.4]),
-                       "budgets": budgets, "exactCost": p["name"] not in DEFERRED}
+                       "budgets": budgets, "exactCost": p["name"] not in DEFERRED,
+                       "params": c01.pick_params(p, rng, prob=0.5)}
                 if rng.random() < 0.5:
                     # phase 1: a short hop; phase 2 (after clearQuery on the same instance): the long query
                     free = [c for c in range(W * H) if c not in obst]
